@@ -8,6 +8,18 @@ ROOT = os.path.dirname(os.path.dirname(os.path.abspath(__file__)))
 
 # id -> (engine, level, design_ref, text, note, technique)
 CHECKS = {
+    "C11": ("protox", "exploration", "DESIGN.md §6-C11",
+            "Every network-facing decoder (varints, frames x3 paths, stream headers x3 paths + uni upgrade, SETTINGS, QPACK field sections, "
+            "datagrams, capsules + close capsule, the four frame-reading typestates x3 paths) is executed on all byte strings up to length 3 "
+            "(4 in the thorough tier), all strings over a 33-byte critical alphabet up to length 5 (6), every truncation / substitution / "
+            "insertion / deletion of a 60-item valid corpus and structured adversarial families (prefix integers with 0..12 continuation bytes "
+            "in every QPACK context, length fields at/beyond every limit, edge ids), in two builds (release; overflow-checks + debug-assertions). "
+            "Oracle: no panic, per-call allocation <= 16*len + 64 KiB, termination (watchdog), type invariants of returned values, and equality "
+            "with the reference decoder (arbitrary-precision integers) wherever the reference defines the value. Inputs that could abort the "
+            "process (huge declared lengths) run in one subprocess each.",
+            "refcodec defines values; RFC-permitted freedoms (duplicate settings, Huffman padding strictness, stricter rejection) draw no verdict. "
+            "Inputs longer than the bounds are covered only through the structured families.",
+            "bounded-exhaustive input enumeration on the implementation (two build profiles) vs. reference decoder"),
     "C14": ("protox", "exploration", "DESIGN.md §6-C14",
             "Bounded-exhaustive enumeration of values of every wire type (all varints below 2^20/2^30 plus every 2^k±16, every frame "
             "kind x every payload length 0..4096, boundary session ids, builder subsets x boundary values, header maps over "
